@@ -234,6 +234,7 @@ pub fn gen_session(seed: u64, run: u64, thorough: bool) -> Session {
         ops,
         crashes,
         midload: Vec::new(),
+        midload_at: Vec::new(),
         decisions: None,
         hold,
         meta: json!({}),
@@ -286,6 +287,7 @@ fn reference_session(s: &Session, ops: Vec<PlannedOp>, hash_seed: u64) -> Histor
         ops,
         crashes: Vec::new(),
         midload: Vec::new(),
+        midload_at: Vec::new(),
         decisions: None,
         hold: None,
         meta: json!({"reference": true}),
